@@ -383,6 +383,7 @@ func c17Backends(dir string) []kvBackend {
 			s := &kvSess{db: wrap(raw)}
 			s.reopen = func() {
 				s.db.Cancel() // what was not flushed is not to survive; Close would flush it
+				raw.Cancel()  // (also when the wrapper under test forgets its backend: bbolt's Close waits for open transactions)
 				raw.Close()
 				bdb, err = bbolt.Open(p, 0o600, opts)
 				if err != nil {
@@ -391,7 +392,7 @@ func c17Backends(dir string) []kvBackend {
 				raw = coreutils.NewBoltChainDB(bdb)
 				s.db = wrap(raw)
 			}
-			s.done = func() { s.db.Cancel(); bdb.Close(); os.Remove(p) }
+			s.done = func() { s.db.Cancel(); raw.Cancel(); bdb.Close(); os.Remove(p) }
 			return s
 		}
 	}
@@ -645,6 +646,12 @@ func runC17(c *Ctx) {
 			res.Eval(canon, nontrivialKV(o.job.ops))
 			res.CountN("ops", len(o.job.ops))
 			res.Count("backend:" + o.names[i])
+		}
+		for _, op := range o.job.ops {
+			switch op.Kind {
+			case "iterbrk", "iterdel", "reopen":
+				res.CountN("op:"+op.Kind, len(o.evals)) // once per backend run
+			}
 		}
 		res.Count("plan:" + o.job.tag)
 		res.Count("mode:" + modeNames[o.job.mode])
